@@ -311,6 +311,9 @@ DB = "nostr_relay/storage/db.py"
 BASE = "nostr_relay/storage/base.py"
 
 MUTANTS = [
+] + [
+    M("c02-" + m.id, m.rel, m.old, m.new, "C02.txn", m.where, False, m.count) for m in __import__("sa.props.c07", fromlist=["MUTANTS"]).MUTANTS if m.expect == "C07.sqlregion"
+] + [
     M("c02-since-and-value", KV, "        elif key == \"since\":\n", "        elif key == \"since\" and value:\n", "C02.dispatch", canary=True),
     M("c02-kinds-and-value", KV, "        elif key == \"kinds\":\n", "        elif key == \"kinds\" and value[0]:\n", "C02.dispatch"),
     M("c02-until-branch-removed", KV, "        elif key == \"until\":\n            col = FIELDS_TO_COLUMNS[\"created_at\"]\n            filter_clauses.add(f\"(et[{col}] <= {value!r})\")\n", "", "C02.dispatch"),
